@@ -5,6 +5,7 @@ package main
 import (
 	"fmt"
 	"strconv"
+	"strings"
 	"time"
 
 	"github.com/tdakkota/docker-logql/internal/zzverif/mockq"
@@ -37,6 +38,19 @@ type c11Input struct {
 	Inner string `json:"inner,omitempty"`
 	// Big: instead of Series, an input vector of Big series {a=i%3, b=i} with pairwise distinct counts in a scrambled order.
 	Big int `json:"big,omitempty"`
+	// Special: the unwrapped values come from this set of special floats instead (see c11Special).
+	Special string `json:"special,omitempty"`
+}
+
+// c11Special: values that do not order or do not cancel. sum/avg propagate them by IEEE arithmetic whatever the
+// order of addition, count counts the series all the same, min/max are defined for infinities.
+var c11Special = map[string][]string{
+	"nan-first": {"NaN", "0.5", "7", "-1"},
+	"nan-last":  {"-2.5", "0.5", "7", "NaN"},
+	"inf-first": {"+Inf", "0.5", "7", "-1"},
+	"inf-mid":   {"-2.5", "+Inf", "7", "-1"},
+	"inf-both":  {"-2.5", "+Inf", "-Inf", "-1"},
+	"neg-inf":   {"-2.5", "0.5", "-Inf", "-1"},
 }
 
 var c11Inner = map[string]*refmodel.Grouping{
@@ -150,7 +164,11 @@ func c11Build(in c11Input) ([]mockq.Rec, refmodel.Expr, bool) {
 		labels := append([]mockq.KV(nil), c11Series[si]...)
 		if in.Unwrap {
 			n = 1 + i%2
-			labels = append(labels, mockq.KV{K: "v", V: c11Values[i]})
+			v := c11Values[i]
+			if in.Special != "" {
+				v = c11Special[in.Special][i]
+			}
+			labels = append(labels, mockq.KV{K: "v", V: v})
 		}
 		for j := 0; j < n; j++ {
 			data = append(data, mockq.Rec{TS: (c09Base+int64(j*3))*sec + int64(i), Line: "", Labels: labels})
@@ -252,6 +270,35 @@ func c11Run(r *vkit.Run) {
 			r.State(vkit.J(sub) + strconv.FormatBool(unwrap))
 		}
 	}
+	// special floats: NaN and the infinities through sum / avg / count (and min / max for the infinities)
+	for _, sub := range subsets(len(c11Series), 4) {
+		if len(sub) < 2 {
+			continue
+		}
+		idx++
+		if !r.Mine(idx) || r.Stop() {
+			continue
+		}
+		for _, sp := range []string{"nan-first", "nan-last", "inf-first", "inf-mid", "inf-both", "neg-inf"} {
+			for _, t := range c11Tmpl {
+				op, _, _ := strings.Cut(t.name, " ")
+				switch op {
+				case "sum", "avg", "count":
+				case "min", "max":
+					if strings.HasPrefix(sp, "nan") {
+						continue
+					}
+				default:
+					continue
+				}
+				if strings.Contains(t.name, "(") && !strings.Contains(t.name, " by(") && !strings.Contains(t.name, " without(") {
+					continue // nestings
+				}
+				c11Check(r, c11Input{Series: sub, Unwrap: true, Query: t.name, Range: false, Bound: bound, Special: sp}, nil)
+			}
+		}
+		r.NonTrivial()
+	}
 	// vectors larger than any small-slice special case of the sorting / heap code
 	for _, big := range []int{13, 20, 33} {
 		for _, q := range []string{"sort", "sort_desc", "topk(5)", "bottomk(5) by(a)", "topk(2) by(a)", "sort(sum by(a))", "sum by(a)", "max", "count by(a)", "topk(1, sum by(a))"} {
@@ -272,7 +319,7 @@ func c11Run(r *vkit.Run) {
 			r.NonTrivial()
 		}
 	}
-	r.Note("bounds", fmt.Sprintf("input vectors: all non-empty subsets (size <=4) of 6 label sets over a in {1,2}, b in {x,y}, optional c, with pairwise distinct values (counts 1,2,3,5 or unwrapped -2.5,0.5,7,-1), plus vectors of 13, 20 and 33 series for sort/topk/bottomk; %d query templates (7 operators x 9 groupings, topk/bottomk k in {1,2,5} x 5 groupings, sort/sort_desc, 20 nestings up to depth 3); instant and 3-step range; map-order deviation bound %d", len(c11Tmpl), bound))
+	r.Note("bounds", fmt.Sprintf("input vectors: all non-empty subsets (size <=4) of 6 label sets over a in {1,2}, b in {x,y}, optional c, with pairwise distinct values (counts 1,2,3,5 or unwrapped -2.5,0.5,7,-1), plus vectors of 13, 20 and 33 series for sort/topk/bottomk, plus 6 value sets holding NaN / +Inf / -Inf for sum, avg, count (min, max for the infinities); %d query templates (7 operators x 9 groupings, topk/bottomk k in {1,2,5} x 5 groupings, sort/sort_desc, 20 nestings up to depth 3); instant and 3-step range; map-order deviation bound %d", len(c11Tmpl), bound))
 }
 
 func c11Replay(r *vkit.Run, v vkit.Violation) *vkit.Violation {
